@@ -302,6 +302,26 @@ def read_network(fmt, path, surface_prefix=None, pseudo=None):
         return Network(filelist=[str(path)], fileformats=[fmt], elements=list(ELEMENTS), pseudo_elements=list(pseudo or PSEUDO), **kw)
 
 
+def umist_multifit_witness(chk):
+    """A RATE12 line may carry several fits (NE > 1, nine fields per fit), each with coefficients and a temperature range of
+    its own - 20 of the 6173 lines of the bundled rate12.umist do.  What the line encodes is the reaction over *every* range."""
+    line = ('75:AD:H-:H:H2:e-:::2:4.82e-09:0.02:4.3:10:100:M:A:"10.1103/PhysRevA.82.042708":"n":'
+            '4.32e-09:-0.39:39.4:101:3000:M:A:"10.1103/PhysRevA.82.042708":"n":')
+    f = chk.scratch / "multifit.umist"
+    f.write_text(line + "\n")
+    try:
+        net = read_network("umist", f)
+    except Exception as e:
+        chk.violation({"kind": "read-raised", "format": "umist", "error": type(e).__name__}, f"a two-fit RATE12 line raised {e}", input=line)
+        return
+    wins = sorted((r.temp_min, r.temp_max, r.alpha) for r in net.reaction_list)
+    chk.count(("umist-multifit",), nontrivial=True)
+    if wins != [(10.0, 100.0, 4.82e-09), (101.0, 3000.0, 4.32e-09)]:
+        chk.violation({"kind": "umist-multifit-dropped"},
+                      f"a RATE12 line with two fits (10-100 K and 101-3000 K) decodes to {wins}: the second fit is dropped without a "
+                      f"message, the reaction has no rate between 101 and 3000 K", input=line)
+
+
 def run_c07(argv):
     tier, seed = tier_and_seed(argv)
     chk = Check("C07", tier, seed, ["NaunetProps.C07", "NaunetProps.C07b", "NaunetProps.C07c"], C07_THEOREMS, C07_RULE)
@@ -367,6 +387,7 @@ def run_c07(argv):
                                       "reactions": [{"idx": g.idxfromfile, "reactants": [s.name for s in g.reactants],
                                                      "products": [s.name for s in g.products], "tmin": g.temp_min, "tmax": g.temp_max,
                                                      "rate": g.rate_string} for g in got]}))
+    umist_multifit_witness(chk)
     if getattr(chk, "lean_ok", False) and reqs:
         try:
             answers = lean_driver(reqs)
